@@ -717,7 +717,11 @@ class ParserField:
             for dep in self.dependencies:
                 if dep in alias_map:
                     dep = alias_map[dep]
-                if dep not in fields:
+                key = dep
+                if key not in fields and isinstance(key, str) and key.lower() in fields:
+                    # a case-insensitive field is kept under its lower-cased name
+                    key = key.lower()
+                if key not in fields:
                     # continue
                     # if dependencies is generated from unbound, it is considered inaccurate
                     if not self.property:
@@ -726,7 +730,7 @@ class ParserField:
                         )
                     continue
 
-                field = fields[dep]
+                field = fields[key]
                 if self.property:
                     # if no getter function
                     # dependant will not affect
